@@ -15,6 +15,9 @@ func init() { register("c17", checkC17) }
 // domains, against the Lean interpreter of the regenerated switch tables.
 func checkC17(c *lib.Ctx) {
 	r := c.R
+	if c.Replay != "" && c17Replay(c) {
+		return
+	}
 	r.Rule = "exhaustive: all 65536 wire mode words through toFileMode; all 28672 os.FileMode values (7 types x 3 special x 9 permission bits) through fromFileMode, toChmodPerm and the round trip; a case is non-trivial when its type nibble is not regular or a special bit is set"
 	r.Exhaustive = true
 	var lines, impl []string
@@ -74,4 +77,5 @@ func checkC17(c *lib.Ctx) {
 	c.Compare("c17", lines, impl)
 	r.Exhaustive = true
 	checkC17Files(c)
+	checkC17Listings(c)
 }
